@@ -323,6 +323,11 @@ namespace sim
           w.Key("sched");
           write_sched(w, o.sched, o.script);
         }
+      if (o.noref)
+        {
+          w.Key("noref");
+          w.Bool(true);
+        }
       if (!o.note.empty())
         {
           w.Key("note");
@@ -419,6 +424,7 @@ namespace sim
       if (v.HasMember("sched"))
         read_sched(v["sched"], o.sched, o.script);
       S("note", o.note);
+      if (v.HasMember("noref") && v["noref"].IsBool()) o.noref = v["noref"].GetBool();
     }
 
     template <class W>
@@ -598,6 +604,15 @@ namespace sim
     w.EndObject();
     w.Key("tsan");
     w.Uint(r.tsan_reports);
+    w.Key("tool_traces");
+    w.StartArray();
+    for (const auto &x : r.resp)
+      if (x.sched.decisions > 0)
+        {
+          std::snprintf(hb, sizeof(hb), "%016llx", static_cast<unsigned long long>(x.sched.trace_hash));
+          w.String(hb);
+        }
+    w.EndArray();
     if (with_responses)
       {
         auto wr = [&](const Resp &x)
